@@ -133,6 +133,52 @@ def _top_level(fn, node) -> bool:
     return any(x is node for x in fn.body)
 
 
+def check_creators(prog: Program, rep: Report) -> None:
+    """R12.5: a randomly created composite object stores the centre its members were built around."""
+    for c in prog.subclasses("RandomNodeCreator"):
+        fn = c.methods.get("fill_root_node")
+        levels = prog.resolve_method(c, "number_of_node_levels")
+        two_level = levels is not None and any(isinstance(n, ast.Return) and isinstance(n.value, ast.Constant) and n.value.value == 2
+                                               for n in ast.walk(levels[1]))
+        if fn is None or not two_level:
+            continue
+        loc = Loc(c.file, fn.lineno, f"{c.name}.fill_root_node")
+        root_sets = [n for n in ast.walk(fn) if isinstance(n, ast.Assign) and isinstance(n.targets[0], ast.Attribute)
+                     and n.targets[0].attr == "value" and isinstance(n.value, ast.Call) and norm(n.value.func) == "Particle"]
+        if len(root_sets) != 1:
+            rep.ob("R12.5-root-is-centre", None, loc, c.name, "root particle assignment not recognised")
+            continue
+        call = root_sets[0].value
+        pos = call.args[0] if call.args else next((k.value for k in call.keywords if k.arg == "position"), None)
+        ok = isinstance(pos, ast.Name)
+        why = f"the composite object's position is `{norm(pos)}`"
+        if ok:
+            defs = [n.value for n in ast.walk(fn) if isinstance(n, ast.Assign) and isinstance(n.targets[0], ast.Name)
+                    and n.targets[0].id == pos.id]
+            drawn = len(defs) == 1 and norm(defs[0]).endswith("random_position()")
+            passed = any(isinstance(n, ast.Call) and isinstance(n.func, ast.Attribute) and isinstance(n.func.value, ast.Name)
+                         and n.func.value.id == "self" and any(isinstance(a, ast.Name) and a.id == pos.id for a in list(n.args) + [k.value for k in n.keywords])
+                         for n in ast.walk(fn))
+            ok = drawn and passed
+            why += f" (drawn from random_position: {drawn}; handed to the member-creation helper as centre: {passed})"
+        rep.ob("R12.5-root-is-centre", ok, Loc(c.file, root_sets[0].lineno, f"{c.name}.fill_root_node"), root_sets[0],
+               f"the stored position of a created composite object must be the very centre its point masses were placed around "
+               f"(their nearest-image barycentre); computing it from the already wrapped member positions is wrong for a molecule "
+               f"that straddles a box face: {why}")
+        # the helper builds the members symmetrically around that centre: every member position is centre[d] +/- offset
+        helpers = [n.func.attr for n in ast.walk(fn) if isinstance(n, ast.Call) and isinstance(n.func, ast.Attribute)
+                   and isinstance(n.func.value, ast.Name) and n.func.value.id == "self"]
+        for hname in helpers:
+            h = c.methods.get(hname)
+            if h is None:
+                continue
+            wraps = [n for n in ast.walk(h) if isinstance(n, ast.Call) and norm(n.func).endswith("periodic_boundaries.correct_position")]
+            particles = [n for n in ast.walk(h) if isinstance(n, ast.Call) and norm(n.func) == "Particle"]
+            rep.ob("R12.5-members-wrapped", len(wraps) == len(particles) and len(particles) >= 2,
+                   Loc(c.file, h.lineno, f"{c.name}.{hname}"), f"{len(particles)} members, {len(wraps)} wrapped",
+                   "every created point mass must be put back into the box exactly once")
+
+
 def analyse(src: Source) -> List[Report]:
     rep = Report(ID, src)
     rep.explain(
@@ -140,7 +186,9 @@ def analyse(src: Source) -> List[Report]:
         "returned on a path with a leaf velocity written and not committed; at the commit a velocity change has been "
         "registered for what was written (fact REG_OK = no write since the last commit, or a register reached around it); "
         "where the written unit is syntactically c.value the register in the same block names the same cnode c. "
-        "R12.2: shape of register / commit routines (identified by role): leaf weight applied once, walk over all "
+        "R7.1 (shared with C07): a leaf or composite velocity is cleared / replaced only after the stored state was time-sliced "
+        "to the event time -- otherwise the composite object's stored position no longer matches the barycentre of its point "
+        "masses. R12.2: shape of register / commit routines (identified by role): leaf weight applied once, walk over all "
         "ancestors, time-slice before the in-place change of a moving ancestor, event-time stamp for an ancestor that "
         "starts to move, recursion over all children, clear after commit. R12.3: velocity = None and time_stamp = None are "
         "always written together. R12.4: the mode switcher has an out-state routine for every mode. Not decided: the "
@@ -152,7 +200,7 @@ def analyse(src: Source) -> List[Report]:
     for h in concrete_handlers(prog):
         if not prog.is_subclass(h, "LeavesEventHandler"):
             continue
-        hp = HandlerProtocol(prog, h, rep, ["R12.1", "R12.3"])
+        hp = HandlerProtocol(prog, h, rep, ["R12.1", "R12.3", "R7.1"])
         hp.run()
         n += 1
     rep.unit("leaves_event_handlers", n)
@@ -195,6 +243,8 @@ def analyse(src: Source) -> List[Report]:
     rep.ob("R12.4-mode-dispatch-complete", len(impls) == len(members) and len(members) >= 2,
            Loc(sw.file, sw.node.lineno, sw.name), f"modes {members} / routines {impls}",
            "every aim mode needs exactly one out-state routine")
+    check_creators(prog, rep)
+    rep.expect_min("R12.5-root-is-centre", 2)
     rep.expect_min("R12.1-commit-before-return", 12)
     rep.expect_min("R12.1-register-before-commit", 10)
     rep.expect_min("R12.1-register-same-cnode", 15)
@@ -240,6 +290,14 @@ MUTANTS = [
     Edit("switcher: mode renamed without routine", EH + "root_leaf_unit_active_switcher.py",
          "    def _send_out_state_root_unit_active(", "    def _send_out_state_root_active(", "R12.4"),
 ]
+MUTANTS.append(Edit("water: molecule position from the wrapped atoms",
+                    "jellyfysh/input_output_handler/input_handler/random_node_creator/water_random_node_creator.py",
+                    "        node.value = Particle(position=molecule_center)",
+                    "        node.value = Particle(position=[sum(particle.position[d] for particle in particles) / len(particles)\n"
+                    "                                        for d in range(setting.dimension)])", "R12.5"))
+MUTANTS.append(Edit("root-mode pair handler: no time-slice of the new in-state", EH + "root_unit_active_two_leaf_unit_event_handler.py",
+                    "        self._store_in_state(composite_objects_root_cnodes)\n        self._time_slice_all_units_in_state()\n",
+                    "        self._store_in_state(composite_objects_root_cnodes)\n", "R7.1"))
 TWINS = [
     Edit("exchange: write before register", AB,
          "        self._register_velocity_change_leaf_cnode(target_cnode, active_unit.velocity)\n"
